@@ -37,6 +37,10 @@ def run(ctx):
     c18.r7_document_dispatch(ctx)
     ctx.alias = {}
     check_nullish_tables(ctx, 'R8')
+    from . import c20
+    ctx.alias = {'R1': 'R9'}
+    c20.r1_readers(ctx)          # the records reach the importer as written (no stripping / repairing of lines before the parse)
+    ctx.alias = {}
     from .. import regen
     regen.check(ctx, 'R6')
 
